@@ -429,6 +429,12 @@ func convert(v Val, t types.Type) Val {
 	case Const:
 		b, ok := t.Underlying().(*types.Basic)
 		if !ok {
+			// []byte(s) of a known string keeps the text (the value stands for the bytes of s)
+			if sl, isSl := t.Underlying().(*types.Slice); isSl && x.V.Kind() == constant.String {
+				if eb, isB := sl.Elem().Underlying().(*types.Basic); isB && eb.Kind() == types.Uint8 {
+					return Const{V: x.V, T: t, Dim: x.Dim}
+				}
+			}
 			return Top{}
 		}
 		switch {
@@ -450,3 +456,12 @@ func convert(v Val, t types.Type) Val {
 }
 
 var _ = fmt.Sprintf
+
+// SetVar binds a local variable in st. It is meant for rule stubs (Config.OnCall)
+// that model a callee writing through a pointer argument such as
+// json.Unmarshal(b, &v): evaluating &v marked v as escaped (unknown), the stub
+// re-binds it to the value the callee is modelled to store.
+func (in *Interp) SetVar(st *State, v *types.Var, val Val) {
+	delete(in.escaped, v)
+	st.store[v] = val
+}
